@@ -141,19 +141,42 @@ struct FlagCfg {
     end: Option<NaiveDate>,
 }
 
+/// The number a flag's text denotes is decided by `str::parse::<f64>` (std), not by the library's
+/// own text parser (the CLI uses that one: asking it would make the oracle agree with any bug in
+/// it); the value then goes through the library's validating constructor. A value inside the
+/// documented closed range that the constructor refuses is reported as such.
+fn num<T: TryFrom<f64>>(what: &str, text: &str, lo: f64, hi: f64) -> Result<T, String> {
+    let v: f64 = text.parse().map_err(|_| format!("harness: {what} {text:?} is not a number"))?;
+    if !(lo..=hi).contains(&v) {
+        return Err(format!("harness: generated {what} {v} outside [{lo}, {hi}]"));
+    }
+    T::try_from(v).map_err(|_| format!("VALID: the library refuses {what} = {v}, which lies inside the documented range [{lo}, {hi}]"))
+}
+
+/// defaults the tool declares (clap metadata of the real `CliArgs`) for flags that can be omitted
+fn declared_default(flag: &str) -> Option<String> {
+    use clap::CommandFactory;
+    let cmd = crate::cli::CliArgs::command();
+    let arg = cmd.get_arguments().find(|a| a.get_long() == Some(flag))?;
+    arg.get_default_values().first().map(|v| v.to_string_lossy().into_owned())
+}
+
 fn flag_cfg(i: &crate::model::Inputs) -> Result<FlagCfg, String> {
+    // an omitted method / elevation stands for the default the tool itself declares (--help)
+    let method_name = i.method.clone().or_else(|| declared_default("method"));
+    let elev_text = i.elev.clone().or_else(|| declared_default("elevation"));
     Ok(FlagCfg {
-        params: match &i.method {
+        params: match &method_name {
             Some(m) => Some(Params::new(method_from_name(m).ok_or_else(|| format!("harness: unknown method name {m}"))?)),
             None => None,
         },
-        lat: Latitude::from_str(&i.lat).map_err(|e| format!("harness: lat {}: {e}", i.lat))?,
-        lon: Longitude::from_str(&i.lon).map_err(|e| format!("harness: lon {}: {e}", i.lon))?,
-        elev: match &i.elev {
-            Some(e) => Some(Elevation::from_str(e).map_err(|x| format!("harness: elev {e}: {x}"))?),
+        lat: num("latitude", &i.lat, -90.0, 90.0)?,
+        lon: num("longitude", &i.lon, -180.0, 180.0)?,
+        elev: match &elev_text {
+            Some(e) => Some(num("elevation", e, -420.0, 8848.0)?),
             None => None,
         },
-        gmt: Gmt::from_str(&i.gmt).map_err(|e| format!("harness: gmt {}: {e}", i.gmt))?,
+        gmt: num("GMT offset", &i.gmt, -12.0, 12.0)?,
         start: match &i.start {
             Some(s) => Some(NaiveDate::from_str(s).map_err(|e| format!("harness: start {s}: {e}"))?),
             None => None,
@@ -603,7 +626,8 @@ pub fn run_pass(ctx: &Ctx, sc: &Scenario, inject: bool) -> PassResult {
         let flags = match flag_cfg(&eff_inputs) {
             Ok(f) => f,
             Err(e) => {
-                all_viol.push(Violation { step: k, class: "harness".into(), message: e });
+                let class = if e.starts_with("VALID:") { "O1-valid-input-rejected" } else { "harness" };
+                all_viol.push(Violation { step: k, class: class.into(), message: e });
                 break 'steps;
             }
         };
